@@ -26,6 +26,18 @@ pub fn c03_hist() -> PoolHist {
         generic_mark: false,
     }
 }
+/// C19 in histories: stableswap-heavy, routes that come back to a pool
+pub fn c19_hist() -> PoolHist {
+    PoolHist {
+        name: "pool-history-pricing",
+        mon: Mon { c19: true, ..Mon::default() },
+        weights: Weights { roundtrip: 4, create: 1, provide: 4, single: 5, withdraw: 2, swap: 8, route: 12, misc: 1, bad: 0 },
+        simple_routes: false,
+        max_ops_quick: 40,
+        max_ops_thorough: 80,
+        generic_mark: false,
+    }
+}
 pub fn c04_hist() -> PoolHist {
     PoolHist {
         name: "pool-history-swap-conservation",
@@ -75,7 +87,7 @@ pub fn c20_hist() -> PoolHist {
 pub fn all_hist() -> PoolHist {
     PoolHist {
         name: "pool-history-all",
-        mon: Mon { c01: true, c02: true, c03: true, c04: true, c12: true, c16: true, c20: true },
+        mon: Mon { c01: true, c02: true, c03: true, c04: true, c12: true, c16: true, c20: true, c19: true },
         weights: Weights::default(),
         simple_routes: false,
         max_ops_quick: 40,
